@@ -65,12 +65,12 @@ let run (input : S.t) (observed : S.t) : S.t * string =
       | _ -> ()) ops;
   let lead u = if share then nat_of_int (1000 + (try Hashtbl.find pat_of (int_of_nat u) with Not_found -> 0) + 1) else u in
   (* (reuse) without (share)/(frag): the requests of the subscribers whose uid is a multiple of 3 hold one
-     more field, k, under a variable that is true for the multiples of 6: their messages end with it
+     more field, k, under a variable that is true when uid mod 4 < 2: their messages end with it
      (rendered as field 99, value 0); the specification's selection does not know it *)
   let reuse = List.exists (function S.L [S.A "reuse"] -> true | _ -> false) ops in
   let frag = List.exists (function S.L [S.A "frag"] -> true | _ -> false) ops in
   let extra ((u, m), ok) =
-    if reuse && not share && not frag && int_of_nat u mod 6 = 0 then ((u, m @ [(nat_of_int 99, Some (z_of_int 0))]), ok) else ((u, m), ok) in
+    if reuse && not share && not frag && int_of_nat u mod 3 = 0 && int_of_nat u mod 4 < 2 then ((u, m @ [(nat_of_int 99, Some (z_of_int 0))]), ok) else ((u, m), ok) in
   let rename = function
     | RPub po -> RPub { po with p_clean = List.map lead po.p_clean; p_del = List.map extra po.p_del }
     | RUnsub (c, cl) -> RUnsub (c, List.map lead cl)
